@@ -31,7 +31,7 @@ def run(ctx):
         rule='(plus fault histories in which the k-th db.next() of a dispatch fails: correspondence with SchedFault.v + oracle) random engines (including analyses downstream of tasks) x random histories with failures, invalid replies and empty target lists; corpus of directed scenarios first. Non-trivial = the history reached an idle state (nothing pending, nothing executing) after >= 1 failed/invalid reply or empty-target request')
 
 
-    if not ctx.replay:
+    if not ctx.replay and not ctx.nviol:
         sc.fault_study(ctx, so.c04)
 
 
